@@ -243,3 +243,24 @@ class VPaySink(PayloadSink[FloatDataType]):
     @classmethod
     def input_data_type(cls):
         return FloatDataType
+
+
+class VSrc2(DataSource):
+    """Source producing FloatDataType(value + offset); offset defaults to 0.5."""
+
+    @classmethod
+    def _get_data(cls, value: float, offset: float = 0.5) -> FloatDataType:
+        _log("VSrc2", value=value, offset=offset)
+        return FloatDataType(float(value) + float(offset))
+
+    @classmethod
+    def output_data_type(cls):
+        return FloatDataType
+
+
+class VTwoProbe(_FloatProbe):
+    """Returns value * factor * gain (gain defaults to 1.0)."""
+
+    def _process_logic(self, data, factor: float, gain: float = 1.0):
+        _log("VTwoProbe", factor=factor, gain=gain)
+        return data.data * factor * gain
